@@ -33,6 +33,8 @@ Every rule then sees the same tree for
 
     NAME = "literal" (module level, bound once)  ->  every read of NAME in the module is the literal
 
+    X | None, A | B, list[X]   ->  Optional[X], Union[A, B], List[X]   (inside annotations of parameters / returns)
+
 Positions of the original nodes are kept, so reports still point at the source line.  `tools/equiv_probe.py`
 applies the inverse rewrites to every module and checks that every rule stays silent.
 """
@@ -102,6 +104,40 @@ def _positive(test: ast.AST) -> Optional[ast.AST]:
     if isinstance(test, ast.Compare) and len(test.ops) == 1 and isinstance(test.ops[0], NEGATIVE):
         return ast.copy_location(ast.Compare(left=test.left, ops=[NEGATE[type(test.ops[0])]()], comparators=test.comparators), test)
     return None
+
+
+PEP585_BACK = {"list": "List", "dict": "Dict", "set": "Set", "tuple": "Tuple", "frozenset": "FrozenSet", "type": "Type"}
+
+
+def _canon_annotation(node: ast.AST) -> ast.AST:
+    """annotations in the spelling of `typing`: `X | None` -> Optional[X], `A | B` -> Union[A, B], `list[X]` -> List[X]"""
+
+    def flatten(n: ast.AST) -> List[ast.AST]:
+        if isinstance(n, ast.BinOp) and isinstance(n.op, ast.BitOr):
+            return flatten(n.left) + flatten(n.right)
+        return [n]
+
+    class T(ast.NodeTransformer):
+        def visit_BinOp(self, n: ast.BinOp):
+            if isinstance(n.op, ast.BitOr):
+                parts = [self.visit(p) for p in flatten(n)]
+                nones = [p for p in parts if isinstance(p, ast.Constant) and p.value is None]
+                rest = [p for p in parts if not (isinstance(p, ast.Constant) and p.value is None)]
+                inner = rest[0] if len(rest) == 1 else ast.Subscript(value=ast.Name(id="Union", ctx=ast.Load()), slice=ast.Tuple(elts=rest, ctx=ast.Load()), ctx=ast.Load())
+                if nones:
+                    inner = ast.Subscript(value=ast.Name(id="Optional", ctx=ast.Load()), slice=inner, ctx=ast.Load())
+                return ast.copy_location(inner, n)
+            return self.generic_visit(n)
+
+        def visit_Subscript(self, n: ast.Subscript):
+            n = self.generic_visit(n)
+            if isinstance(n.value, ast.Name) and n.value.id in PEP585_BACK:
+                n.value = ast.copy_location(ast.Name(id=PEP585_BACK[n.value.id], ctx=ast.Load()), n.value)
+            return n
+
+    out = T().visit(node)
+    ast.fix_missing_locations(out)
+    return out
 
 
 class Canon(ast.NodeTransformer):
@@ -223,6 +259,11 @@ class Canon(ast.NodeTransformer):
         node = self.generic_visit(node)
         self.numeric.pop()
         _inline_return_locals(node)
+        for a in node.args.posonlyargs + node.args.args + node.args.kwonlyargs:
+            if a.annotation is not None and not isinstance(a.annotation, ast.Constant):
+                a.annotation = _canon_annotation(a.annotation)
+        if node.returns is not None and not isinstance(node.returns, ast.Constant):
+            node.returns = _canon_annotation(node.returns)
         return node
 
     visit_FunctionDef = _function
